@@ -56,8 +56,13 @@ pub fn replay_file(path: &str) {
             panics += 1;
             d.push(format!("panic/hang during replay ({} panics, {} hangs)", r.panics, r.hangs));
         } else {
-            let act = machine_json(&r.m, true);
-            subset_diff(v.get("s").unwrap_or(&Value::Null), &act, "", &mut d);
+            match std::panic::catch_unwind(std::panic::AssertUnwindSafe(|| machine_json(&r.m, true))) {
+                Ok(act) => subset_diff(v.get("s").unwrap_or(&Value::Null), &act, "", &mut d),
+                Err(_) => {
+                    panics += 1;
+                    d.push("panic while reading the state back".to_string());
+                }
+            }
         }
         if !d.is_empty() {
             mism += 1;
